@@ -161,7 +161,6 @@ var c15Params = []string{
 func TestC15(t *testing.T) {
 	res := newResult("C15", "function types generated from a grammar (0..3 inputs from {context, int, string, *Request, struct, error, slice}, variadic or not, 0..3 outputs from {error, int, struct}) plus non-function values for Check; for accepted signatures, parameter types from a pool of 22 declared types (scalars, slices, maps, arrays, structs with tagged / untagged / `-` / unexported / embedded fields incl. embedded with option-only and named tags, pointers, types with value- and pointer-receiver DisallowUnknownFields, any, RawMessage) x SetStrict x AllowArray x 38 params texts. The captured argument is compared with encoding/json applied (strictly or not, as the model says) to the text the model says is decoded. distinct = (signature, options, params); non-trivial = all")
 	defer res.Write(t)
-	rng := newRNG()
 	ctx := context.Background()
 
 	// ---- Part A: Check
